@@ -931,6 +931,22 @@ pub async fn run_behaviour<TC: HasRef>(b: &Value, tr: &mut Tracer) {
                 remote = Some(ctx.open_remote(st["cache"].as_str().unwrap_or("default")).await);
                 tr.emit(json!({"ev": "reopen", "kind": "remote_open"}));
             }
+            "remote_poll" => {
+                // C13: the remote instance's change poller; once it has signalled, later answers must be at least that new
+                if let Some(r) = remote.as_mut() {
+                    let (tx, mut rx) = tokio::sync::mpsc::channel::<()>(4);
+                    let d = r.dir.clone();
+                    let h = tokio::spawn(async move {
+                        let _ = d.poll_for_azks_changes(Duration::from_millis(1), Some(tx)).await;
+                    });
+                    let got = tokio::time::timeout(Duration::from_secs(10), rx.recv()).await;
+                    h.abort();
+                    match got {
+                        Ok(Some(())) => tr.emit(json!({"ev": "notify", "epoch": ctx.roots.len() as u64 - 1, "res": "ok"})),
+                        _ => tr.emit(json!({"ev": "notify", "epoch": 0, "res": "none"})),
+                    }
+                }
+            }
             "remote_read" => {
                 if let Some(r) = remote.as_mut() {
                     if r.cell.cache == "short" {
